@@ -65,8 +65,12 @@ type History struct {
 	Names int `json:"names,omitempty"`
 	// Recover: when a cycle ends with an error from the sorter (only possible under injected faults),
 	// call Clear and, if that succeeds, carry on with the next cycle
-	Recover bool    `json:"recover,omitempty"`
-	Cycles  []Cycle `json:"cycles"`
+	Recover bool `json:"recover,omitempty"`
+	// PullThrough: when a Pull returns an error other than io.EOF (only possible under injected faults),
+	// keep pulling until io.EOF as a caller that logs the error and carries on would; nothing is claimed
+	// about the values, the event "drained-after-error N" marks the end of the drain
+	PullThrough bool    `json:"pull_through,omitempty"`
+	Cycles      []Cycle `json:"cycles"`
 }
 
 // Err is a model violation found while running a history.
@@ -296,7 +300,20 @@ func runCycle(h History, s *Sorter, ci int, outp *Outcome, fail func(string, err
 				break
 			}
 			if err != nil {
-				return erredOut(fmt.Sprintf("cycle %d pull %d", ci, pulled), err)
+				o, e, erred := erredOut(fmt.Sprintf("cycle %d pull %d", ci, pulled), err)
+				if e == nil && h.PullThrough {
+					for k := 0; k < 3*len(c.Keys)+10; k++ {
+						if _, err := s.Pull(); err == io.EOF {
+							if mark != nil {
+								if e := mark(fmt.Sprintf("drained-after-error %d", ci)); e != nil {
+									return out, e, false
+								}
+							}
+							break
+						}
+					}
+				}
+				return o, e, erred
 			}
 			if !h.Struct {
 				it.payload, it.extra = "", 0
